@@ -237,7 +237,9 @@ impl UnitPropagate {
                     self.watch_list_pos[var_idx][watcher_idx]
                 };
 
-                let new_lit: &Literal = if new_assignment.polarity() {
+                // the candidate is watched in the list of its *own* polarity
+                let candidate_polarity = remaining_lits.clone().next().unwrap().polarity();
+                let new_lit: &Literal = if candidate_polarity {
                     if self.watch_list_pos[candidate_unwatched].contains(&prev_watcher) {
                         remaining_lits.nth(1).unwrap()
                     } else {
